@@ -48,7 +48,8 @@ def run(rep):
              '__sro__/__iro__ from one fresh _calculate_sro() on every path and '
              'then notifies every dependent unconditionally, so the __sro__ of '
              'everything below a changed specification is the linearization of '
-             'the CURRENT hierarchy (shared with C02 R02.1/R02.2)', floor=8)
+             'the CURRENT hierarchy; every __bases__ store unsubscribes from all old '
+             'and subscribes to all new bases (shared with C02 R02.1-R02.3)', floor=8)
     rep.decline('that the merge output lists each ancestor exactly once, each '
                 'before its bases, and equals the C3 linearization for every '
                 'ordered DAG (algorithmic correctness on unbounded inputs; '
@@ -70,3 +71,7 @@ def run(rep):
     imod = rep.repo.module('interface.py')
     specsem.changed_recompute(rep, imod, 'R03.6')
     specsem.changed_notify(rep, imod, 'R03.6')
+    # ... and a specification is a dependent of exactly its current bases
+    from .C02 import r02_3
+    r02_3(rep, imod, 'R03.6')
+    specsem.subscription_counting(rep, imod, 'R03.6')
